@@ -70,7 +70,17 @@ SchemaFacts(R, S, path, fuel) ==
                                   i \in 1..Len(S[kw])} ELSE {}
       isObj == (Has(S, "type") /\ S.type = "object")
                \/ (Has(S, "types") /\ \E i \in 1..Len(S.types) : S.types[i] = "object")
+      (* statham's normal form of an object class DECLARES every required name: a required name   *)
+      (* without a declaration of its own is governed by the additionalProperties schema (unless  *)
+      (* a pattern matches it), whose facts are therefore met under that name as well            *)
+      declared == IF Has(S, "properties") THEN {S.properties[i][1] : i \in 1..Len(S.properties)} ELSE {}
+      matched(n) == Has(S, "patternProperties") /\ \E i \in 1..Len(S.patternProperties) : Match(S.patternProperties[i][1], n)
+      synth == IF isObj /\ Has(S, "required") /\ Has(S, "additionalProperties") /\ ~IsBoolSchema(S.additionalProperties)
+               THEN UNION {SchemaFacts(R, S.additionalProperties, Append(path, Step("p", n)), fuel - 1) :
+                             n \in {m \in SeqRange(S.required) \ declared : ~matched(m)}}
+               ELSE {}
   IN (IF Has(S, "default") THEN {<<path, "default", S.default>>} ELSE {})
+     \cup synth
      \cup (IF isObj /\ Has(S, "description") THEN {<<path, "description", JStr(S.description)>>} ELSE {})
      \cup one("items", "i") \cup one("additionalItems", "ai") \cup one("contains", "c")
      \cup one("additionalProperties", "ap") \cup one("propertyNames", "pn")
